@@ -187,6 +187,18 @@ def run_case(case, ctx):
     if not abs(Z_l - Zref) <= (tau + 1e-11) * Zref:
         ctx.violation("normalization-vs-reference", f"normalization={Z_l!r}, reference Z={Zref!r}",
                       tags={"state": kind}, witness=wit)
+    # the normalisation is a sum over the basis: the order in which the caller lists the basis states (little-endian,
+    # Gray code, any permutation) and the memory form of that list do not matter
+    if N > 1:
+        orders = {"reversed": np.arange(N)[::-1].copy(), "little-endian": np.array([int(format(i_, f"0{nv}b")[::-1], 2) for i_ in range(N)]),
+                  "gray": np.array([i_ ^ (i_ >> 1) for i_ in range(N)]), "random": rng.permutation(N)}
+        oname = list(orders)[int(rng.integers(0, len(orders)))]
+        psp, pform = gen.memory_form(sp[orders[oname].tolist()].clone(), rng)
+        Zp = float(ctx.lib("normalization(permuted space)", st.normalization, psp, tags={"state": kind, "order": oname, "memory_form": pform}))
+        ctx.count("normalisations_of_permuted_spaces")
+        if not abs(Zp - Z_l) <= 1e-11 * abs(Z_l):
+            ctx.violation("normalization-depends-on-row-order", f"normalization of the full basis listed in {oname} order ({pform}) = {Zp!r}, in "
+                          f"counting order {Z_l!r}", tags={"state": kind, "order": oname}, witness=wit)
     for zname, zarg in (("tensor", Z), ("float", float(Z_l)), ("numpy.float64", np.float64(Z_l))):
         pn = ctx.lib(f"probability(Z as {zname})", st.probability, sp, zarg, tags={"state": kind, "Z_form": zname}).numpy()
         ctx.count("normalised_probability_forms_checked")
